@@ -164,52 +164,57 @@ def shape_of(program: Program, c: ClassInfo):
     return "atom", sk
 
 
-def paths(v, limit: int = 64, opaque_leaf: bool = False):
-    """flat part sequences of every alternative path of a skeleton (bounded)"""
-    from ..symex import Rep, JoinP, One, RepI, CondI, Opaque
+def paths(v, limit: int = 64, opaque_leaf: bool = False, with_conds: bool = False):
+    """flat part sequences of every alternative path of a skeleton (bounded); with_conds=True returns
+    (flat, conditions) pairs where conditions are the (possibly negated) branch tests taken on that path"""
+    from ..symex import Rep, JoinP, One, RepI, CondI, Opaque, negate
+
+    def cross(acc, nxt):
+        return [(a + b, ca + cb) for a, ca in acc for b, cb in nxt][:limit]
+
     def rec(x):
         if isinstance(x, Str):
-            acc = [[]]
+            acc = [([], ())]
             for p in x.parts:
-                nxt = rec(p)
-                acc = [a + b for a in acc for b in nxt][:limit]
+                acc = cross(acc, rec(p))
             return acc
-        if isinstance(x, Alt):
-            return (rec(x.a) + rec(x.b))[:limit]
-        if isinstance(x, Phi):
-            return (rec(x.a) + rec(x.b))[:limit]
+        if isinstance(x, (Alt, Phi)):
+            ra = [(f, (x.cond,) + c) for f, c in rec(x.a)]
+            rb = [(f, (negate(x.cond),) + c) for f, c in rec(x.b)]
+            return (ra + rb)[:limit]
         if isinstance(x, Rep):
             return rec(x.body)
         if isinstance(x, (Lit, Hole, SlotP)):
-            return [[x]]
+            return [([x], ())]
         if isinstance(x, Opaque):
             if opaque_leaf:
-                return [[x]]
-            acc = [[]]
+                return [([x], ())]
+            acc = [([], ())]
             for i in x.inner:
-                acc = [a + b for a in acc for b in rec(i)][:limit]
-            return acc or [[Lit("?")]]
+                acc = cross(acc, rec(i))
+            return acc or [([Lit("?")], ())]
         if isinstance(x, JoinP):
-            acc = [[]]
+            acc = [([], ())]
             for i in x.items:
-                acc = [a + b for a in acc for b in rec(i)][:limit]
+                acc = cross(acc, rec(i))
             return acc
         if isinstance(x, One):
             return rec(x.value)
         if isinstance(x, (RepI,)):
-            acc = [[]]
+            acc = [([], ())]
             for i in x.body:
-                acc = [a + b for a in acc for b in rec(i)][:limit]
+                acc = cross(acc, rec(i))
             return acc
         if isinstance(x, CondI):
-            acc = [[]]
+            acc = [([], ())]
             for i in x.items:
-                acc = [a + b for a in acc for b in rec(i)][:limit]
-            return acc + [[]]
+                acc = cross(acc, rec(i))
+            return acc + [([], ())]
         if isinstance(x, Const) and isinstance(x.value, str):
-            return [[Lit(x.value)]]
-        return [[Lit("?")]]
-    return rec(v)
+            return [([Lit(x.value)], ())]
+        return [([Lit("?")], ())]
+    out = rec(v)
+    return out if with_conds else [f for f, _ in out]
 
 
 # parents: (class, operator attribute, members)
